@@ -93,13 +93,21 @@ class Gen:
     def col(self, aliases):
         a = self.r.choice(aliases)
         c = self.r.choice(COLS)
+        k = self.r.random()
+        if k < 0.08:
+            return c                      # unqualified although the query has aliases
+        if k < 0.11:
+            return 'zz.%s' % c            # unknown alias
         return c if a is None else '%s.%s' % (a, c)
 
     def cond(self, aliases, depth=0):
         r = self.r
         k = r.random()
         if k < 0.30:
-            return '%s %s %s' % (self.col(aliases), r.choice(['=', '>', '<', '>=', '<=', '<>']), self.const())
+            l, rr = self.col(aliases), self.const()
+            if r.random() < 0.2:
+                l, rr = rr, l             # constant on the left
+            return '%s %s %s' % (l, r.choice(['=', '>', '<', '>=', '<=', '<>']), rr)
         if k < 0.40:
             return '%s = %s' % (self.col(aliases), self.col(aliases))
         if k < 0.50 and depth < 2:
@@ -142,6 +150,24 @@ class Gen:
             return ('int1 (select * from raw)' + (' as ' + a if use_alias else ''), a, 'native')
         return (r.choice(TABLES[:4]) + ' ' + a, a, 'table')
 
+    def on_side(self, aliases, i):
+        r = self.r
+        k = r.random()
+        if k < 0.35:
+            return '%s.%s' % (aliases[i], r.choice(COLS))
+        if k < 0.55:
+            return '%s.%s' % (r.choice(aliases), r.choice(COLS))
+        if k < 0.78:
+            return r.choice(COLS + ['order_id'])
+        if k < 0.84:
+            return 'zz.%s' % r.choice(COLS)
+        return self.const()
+
+    def on_cond(self, aliases, i):
+        r = self.r
+        return '%s %s %s' % (self.on_side(aliases, i), r.choice(['=', '=', '=', '<>', '>', '<', '>=', '<=']),
+                             self.on_side(aliases, i))
+
     def from_clause(self, depth):
         r = self.r
         n = r.choice([1, 1, 2, 2, 2, 3, 3, 4])
@@ -157,6 +183,12 @@ class Gen:
             s += ' %s %s' % (jt, ops[i][0])
             if jt != 'cross join' and r.random() < 0.7:
                 on = '%s.%s = %s.%s' % (aliases[i], r.choice(COLS), r.choice(aliases[:i] + aliases), r.choice(COLS))
+                if r.random() < 0.45:
+                    # free-form ON: either side may be the joined table's column, another table's column, an
+                    # UNQUALIFIED column, a column of an unknown alias, or a constant; any comparison operator
+                    on = self.on_cond(aliases, i)
+                    for _ in range(r.choice([0, 0, 1, 2])):
+                        on += ' %s %s' % (r.choice(['and', 'and', 'and', 'or']), self.on_cond(aliases, i))
                 if r.random() < 0.3:
                     on += ' and %s' % self.cond([aliases[i]] + aliases[:i], 2)
                 s += ' on ' + on
